@@ -610,7 +610,7 @@ class GCProg(SOCProg):
             more_lb[num_vars + d*3 + 2] = 0
 
         left_width = self.linear.shape[1]
-        qmat = self.qmat
+        qmat = list(self.qmat)
         lmi = self.lmi
 
         linear = self.linear
